@@ -104,7 +104,6 @@ SQL = {
     "parse": "SELECT {c}  from {t};\nSELECT 1 +  + from ;\n",
     "templ": "SELECT {{{{ '{c}' }}}}  from {t}\n",
     "templclean": "{{% set x = '{c}' %}}SELECT {{{{ x }}}} FROM {t}\n",
-    "raise": "SELECT '{{' AS {c}  FROM {t}\n",
 }
 LIMIT = 600
 
@@ -165,10 +164,19 @@ def big_directory(root: str, rnd: random.Random, k: int) -> Dict[str, str]:
     return kindof
 
 
+RAISE_DIR_CFG = "[sqlfluff]\nlarge_file_skip_byte_limit = abc\n"   # load_raw_file_and_config raises ValueError
+
+
+def small_name(kind: str) -> str:
+    return "rz/raise.sql" if kind == "raise" else f"{kind}.sql"
+
+
 def small_directory(root: str, kinds: List[str], rnd: random.Random, skip_fail: bool) -> Dict[str, str]:
-    files = {f"{kd}.sql": file_text(kd, rnd) for kd in sorted(set(kinds))}
-    write_tree(root, files, skip_fail=skip_fail, templater="python" if "raise" in kinds else "jinja")
-    return {f"{kd}.sql": kd for kd in sorted(set(kinds))}
+    """One file per kind.  "raise" = a file whose rendering raises: it sits under a nested .sqlfluff whose byte
+    limit is not a number, so Linter.load_raw_file_and_config (called by render_file) raises ValueError."""
+    files = {small_name(kd): file_text("clean" if kd == "raise" else kd, rnd) for kd in sorted(set(kinds))}
+    write_tree(root, files, skip_fail=skip_fail, nested={"rz": RAISE_DIR_CFG} if "raise" in kinds else None)
+    return {small_name(kd): kd for kd in sorted(set(kinds))}
 
 
 # ------------------------------------------------------------------------------------------ delay plans
@@ -394,7 +402,7 @@ def make_jobs(tier: str, seed: int, emitted: List[dict], raising: List[dict], ro
         tpl = os.path.join(root, "tpl", jid)
         sf = bool(k % 2)
         kindof = small_directory(tpl, rec["tasks"], rnd, sf)
-        paths = [f"{kd}.sql" for kd in rec["tasks"]]
+        paths = [small_name(kd) for kd in rec["tasks"]]
         n = rec["n"] if rec["mode"] != "serial" else 1
         runner = "thread" if rec["mode"] == "ordered" else "process"
         sched = plan_exact(rec["comp"], max(1, n), paths)
@@ -474,8 +482,8 @@ def check_tlc_values(rep: Report, rid: str, m: dict, run: dict, sig: dict, tpl: 
                "tpl_files": _read_tree(tpl)}
     what = f"TLC case tasks={rec['tasks']} n={rec['n']} mode={rec['mode']} op={rec['op']} comp={rec['comp']}"
     if "raise" in rec["tasks"] and fin["raised"] is None and any(
-            e["event"] == "add" and os.path.normpath(e["fname"]) == "raise.sql" for e in run["events"]):
-        # the concretisation of "a file whose rendering raises" no longer raises in this tree (DESIGN F24 repaired?):
+            e["event"] == "add" and kindof.get(os.path.normpath(e["fname"])) == "raise" for e in run["events"]):
+        # the concretisation of "a file whose rendering raises" does not raise in this tree:
         # the case is not an instance of the TLC record; the trace validation against the serial run still applies
         rep.extra["raise_trigger_inert"] = True
         return
